@@ -471,7 +471,18 @@ func (p *queryPlan) addSpecifiedData(ctx context.Context, r table.Row, cls *sema
 	}
 
 	p.tbl.AddBindings(tbl.Bindings())
-	if tbl.NumRows() == 0 && cls.Optional {
+	// Not every shared binding can be pushed into the clause (an ID, TYPE or
+	// AT extraction, or a value of a kind that cannot stand in that position),
+	// so the fetched rows still have to agree with the row being extended.
+	matched := 0
+	for _, nr := range tbl.Rows() {
+		if !rowsAgree(r, nr) {
+			continue
+		}
+		matched++
+		p.tbl.AddRow(table.MergeRows([]table.Row{r, nr}))
+	}
+	if matched == 0 && cls.Optional {
 		nr := make(table.Row)
 		for _, k := range tbl.Bindings() {
 			if _, ok := r[k]; !ok {
@@ -479,12 +490,40 @@ func (p *queryPlan) addSpecifiedData(ctx context.Context, r table.Row, cls *sema
 			}
 		}
 		p.tbl.AddRow(table.MergeRows([]table.Row{r, nr}))
-		return nil
-	}
-	for _, nr := range tbl.Rows() {
-		p.tbl.AddRow(table.MergeRows([]table.Row{r, nr}))
 	}
 	return nil
+}
+
+// rowsAgree returns true if both rows hold the same value for every binding
+// they share.
+func rowsAgree(r, nr table.Row) bool {
+	for k, v := range nr {
+		if ov, ok := r[k]; ok && !cellsEqual(ov, v) {
+			return false
+		}
+	}
+	return true
+}
+
+// cellsEqual returns true if both cells hold the same value of the same kind.
+// Time anchors are compared as instants.
+func cellsEqual(a, b *table.Cell) bool {
+	if a == nil || b == nil {
+		return a == b
+	}
+	switch {
+	case a.S != nil || b.S != nil:
+		return a.S != nil && b.S != nil && *a.S == *b.S
+	case a.N != nil || b.N != nil:
+		return a.N != nil && b.N != nil && a.N.String() == b.N.String()
+	case a.P != nil || b.P != nil:
+		return a.P != nil && b.P != nil && a.P.Type() == b.P.Type() && a.P.UUID().String() == b.P.UUID().String()
+	case a.L != nil || b.L != nil:
+		return a.L != nil && b.L != nil && a.L.Type() == b.L.Type() && a.L.String() == b.L.String()
+	case a.T != nil || b.T != nil:
+		return a.T != nil && b.T != nil && a.T.Equal(*b.T)
+	}
+	return true
 }
 
 // specifyClauseWithTable runs the clause, but it specifies it further based on
